@@ -3,6 +3,7 @@
 // generic driver interprets the operand-shape spec of the row.
 #include "../engine/pbt.hpp"
 #include "../engine/gen.hpp"
+#include "../engine/guard.hpp"
 #include "goldilocks_base_field.hpp"
 #include <climits>
 
@@ -38,7 +39,8 @@ enum { P_ROW = 0, P_AV = 1, P_BV = 9, P_SA = 17, P_SB = 18, P_SC = 19, P_IA = 20
 struct Operand {
     Kind k; int L; std::vector<uint64_t> pos; // designated positions (arrays)
     E *arena = nullptr; uint64_t size = 0; std::vector<uint64_t> eff; // effective lane values
-    ~Operand() { free(arena); }
+    guard::Buf gb; bool guarded = false;
+    ~Operand() { if (!guarded) free(arena); }
 };
 static void positions(Operand &o, uint64_t stride, const uint64_t *idx)
 {
@@ -52,8 +54,8 @@ static void fill_input(Operand &o, const uint64_t *vals, uint64_t junk)
     o.eff.assign(vals, vals + o.L);
     if (o.k == K_SCALAR) { for (int k = 0; k < o.L; k++) o.eff[k] = vals[0]; return; }
     if (o.k < K_ARR_UNIT) return;
-    free(o.arena);
-    o.arena = (E *)malloc(o.size * sizeof(E)); // exact extent: one element past the last designated cell is out of bounds
+    // exact extent: the arena ends at a guard page (ASan build: exact-size malloc): one element past the last designated cell faults
+    o.gb.alloc(o.size * sizeof(E)); o.arena = o.gb.as<E>(); o.guarded = true;
     for (uint64_t i = 0; i < o.size; i++) o.arena[i].fe = pbt::mix(junk, i);
     for (int k = 0; k < o.L; k++) o.arena[o.pos[k]].fe = vals[k];
     for (int k = 0; k < o.L; k++) o.eff[k] = o.arena[o.pos[k]].fe; // repeated positions: the last write wins
